@@ -1,6 +1,8 @@
 package patch
 
 import (
+	"fmt"
+	"strings"
 	"testing"
 
 	"github.com/tencent/goom/internal/zzverif/vh"
@@ -12,10 +14,22 @@ func TestVerifC15(t *testing.T) {
 	out := vh.OpenOut()
 	defer out.Close()
 	for _, op := range vh.ReadOps() {
-		if len(op.Toks) != 4 || op.Toks[0] != "emit" || op.Toks[1] != "arm64.entry" {
+		if len(op.Toks) != 4 || op.Toks[0] != "emit" || (op.Toks[1] != "arm64.entry" && op.Toks[1] != "arm64.origin") {
 			continue
 		}
 		from, to := uintptr(vh.U64(op.Toks[2])), uintptr(vh.U64(op.Toks[3]))
+		if op.Toks[1] == "arm64.origin" {
+			// monkey_arm64.go: the jump back is not implemented (panic); the day it is, this line changes and the model has none
+			res := vh.Catch(func() string {
+				bs := jmpToOriginFunctionValue(from, to)
+				return fmt.Sprintf("bytes=%s %s", vh.Hex(bs), vh.RunA64(bs, uint64(from)))
+			})
+			if strings.HasPrefix(res, "panic") {
+				res = "panic"
+			}
+			out.Put(op.Idx, "%s", res)
+			continue
+		}
 		bs := jmpToFunctionValue(from, to)
 		out.Put(op.Idx, "bytes=%s %s", vh.Hex(bs), vh.RunA64(bs, uint64(from)))
 	}
